@@ -395,4 +395,549 @@ theorem C01_trapped_is_500 (p : Plan) (h : (call p).trappedAtInit = true) :
     simp only at h
     split at h <;> simp at h
 
+/-! ### an unexpected failure is answered with a 5xx -/
+
+/-- the callback raises `HTTPRedirect` or `InternalRedirect` — the two ways an application turns an
+    error into a redirect -/
+def isRedir : Exn → Bool
+  | .httpRedirect _ => true
+  | .internalRedirect _ => true
+  | _ => false
+
+def redirects (o : Out) : Bool :=
+  match o.raised with
+  | some e => isRedir e
+  | none => false
+
+/-- No user callback on the error path (`before_error_response` / `after_error_response` hooks, a custom
+    `error_response`) raises a redirect. -/
+def PlainErrorPath (pg : Page) : Prop :=
+  (∀ h ∈ pg.hooks .beforeErrorResponse, redirects h.out = false) ∧
+  (∀ h ∈ pg.hooks .afterErrorResponse, redirects h.out = false) ∧
+  (∀ o, pg.errorResponse = some o → redirects o = false)
+
+theorem runHooks_exn_mem (b : Bool) (l : List Hook) (e : Exn) (h : (runHooks b l).2 = some e) :
+    ∃ x ∈ l, x.out.raised = some e := by
+  induction l generalizing b with
+  | nil => simp [runHooks] at h
+  | cons x rest ih =>
+    simp only [runHooks] at h
+    split at h
+    · obtain ⟨y, hy, hr⟩ := ih b h
+      exact ⟨y, by simp [hy], hr⟩
+    · split at h
+      · obtain ⟨y, hy, hr⟩ := ih b h
+        exact ⟨y, by simp [hy], hr⟩
+      · rename_i e0 he0
+        simp only [Option.some.injEq] at h
+        cases hr : (runHooks true rest).2 with
+        | none => simp [hr] at h; exact ⟨x, by simp, by rw [he0, h]⟩
+        | some e1 =>
+          simp [hr] at h
+          subst h
+          obtain ⟨y, hy, hr'⟩ := ih true hr
+          exact ⟨y, by simp [hy], hr'⟩
+
+theorem run_exn_mem (l : List Hook) (e : Exn) (h : (CpModel.Hooks.run l).2 = some e) :
+    ∃ x ∈ l, x.out.raised = some e := by
+  obtain ⟨x, hx, hr⟩ := runHooks_exn_mem false (sortByPrio l) e h
+  exact ⟨x, (sortByPrio_perm l).mem_iff.mp hx, hr⟩
+
+theorem runPoint_exn_plain (pg : Page) (p : Point) (s : St)
+    (hp : ∀ h ∈ pg.hooks p, redirects h.out = false) (e : Exn) (he : (runPoint pg p s).exn = some e) :
+    isRedir e = false := by
+  have : (CpModel.Hooks.run (hooksAt pg s p)).2 = some e := he
+  obtain ⟨x, hx, hr⟩ := run_exn_mem _ e this
+  have hx' : x ∈ pg.hooks p := by
+    unfold hooksAt at hx
+    split at hx
+    · exact hx
+    · cases hx
+  have := hp x hx'
+  simpa [redirects, hr] using this
+
+theorem finalize_out (pg : Page) (s : St) (h : (finalize pg s).exn = none) :
+    (finalize pg s).st.out = some (statusCode s) := by
+  unfold finalize at h ⊢
+  generalize statusCode s = code at h ⊢
+  simp only [] at h ⊢
+  by_cases hc : code < 100 ∨ 599 < code
+  · simp [hc] at h
+  · simp only [hc, if_false] at h ⊢
+    split
+    · rfl
+    · split
+      · rename_i h1 h2; simp [h1, h2] at h
+      · split <;> rfl
+
+theorem finalize_exn (pg : Page) (s : St) (e : Exn) (h : (finalize pg s).exn = some e) : isRedir e = false := by
+  unfold finalize at h
+  simp only [] at h
+  repeat' split at h
+  all_goals first | (cases h; rfl) | (simp at h)
+
+theorem setResponseError_exn (pg : Page) (c : Nat) (s : St) (e : Exn)
+    (h : (setResponseError pg c s).exn = some e) : isRedir e = false := by
+  unfold setResponseError at h
+  simp only [] at h
+  split at h
+  all_goals first | (cases h; rfl) | (simp at h)
+
+theorem callErrorResponse_spec (pg : Page) (s : St) (hp : ∀ o, pg.errorResponse = some o → redirects o = false) :
+    match (callErrorResponse pg s).exn with
+    | none => 500 ≤ statusCode (callErrorResponse pg s).st
+    | some e => isRedir e = false := by
+  unfold callErrorResponse
+  cases her : errorResponseOf pg s with
+  | none =>
+    simp only []
+    cases hx : (setResponseError pg 500 s).exn with
+    | some e => exact setResponseError_exn pg 500 s e hx
+    | none =>
+      simp only []
+      unfold setResponseError at hx ⊢
+      simp only [] at hx ⊢
+      split <;> simp_all [statusCode]
+  | some o =>
+    have ho : redirects o = false := by
+      unfold errorResponseOf at her
+      split at her
+      · exact hp o her
+      · cases her
+    simp only []
+    cases hr : o.raised with
+    | some e => simp only []; simpa [redirects, hr] using ho
+    | none => simp [statusCode]
+
+theorem runPoint_st (pg : Page) (p : Point) (s : St) : (runPoint pg p s).st = s := rfl
+
+/-- `a` ended normally in a state satisfying `P`, or with an exception that is not a redirect -/
+def Good (P : St → Prop) (a : R) : Prop :=
+  match a.exn with
+  | none => P a.st
+  | some e => isRedir e = false
+
+theorem good_andThen {P P' : St → Prop} {a : R} {f : St → R} (ha : Good P a)
+    (hf : ∀ s, P s → Good P' (f s)) : Good P' (a.andThen f) := by
+  cases he : a.exn with
+  | some e =>
+    rw [andThen_of_some he]
+    unfold Good at ha ⊢
+    simp only [he] at ha ⊢
+    exact ha
+  | none =>
+    rw [andThen_of_none he]
+    unfold Good at ha
+    simp only [he] at ha
+    have := hf a.st ha
+    unfold Good at this ⊢
+    exact this
+
+/-- the `try` block of `handle_error` on a plain error path: it either finalizes a 5xx or fails with
+    something that is not a redirect -/
+theorem handleErrorTry_spec (pg : Page) (s : St) (hp : PlainErrorPath pg) :
+    Good (fun s' => ∃ c, s'.out = some c ∧ 500 ≤ c) (handleErrorTry pg s) := by
+  unfold handleErrorTry
+  have g1 : Good (fun _ => True) (runPoint pg .beforeErrorResponse s) := by
+    unfold Good
+    cases hx : (runPoint pg .beforeErrorResponse s).exn with
+    | none => trivial
+    | some e => exact runPoint_exn_plain pg _ s hp.1 e hx
+  have g2 : ∀ s, True → Good (fun s' => 500 ≤ statusCode s') (callErrorResponse pg s) := by
+    intro s _
+    have := callErrorResponse_spec pg s hp.2.2
+    unfold Good
+    exact this
+  have g3 : ∀ s, 500 ≤ statusCode s → Good (fun s' => 500 ≤ statusCode s') (runPoint pg .afterErrorResponse s) := by
+    intro s hs
+    unfold Good
+    cases hx : (runPoint pg .afterErrorResponse s).exn with
+    | none => exact hs
+    | some e => exact runPoint_exn_plain pg _ s hp.2.1 e hx
+  have g4 : ∀ s, 500 ≤ statusCode s → Good (fun s' => ∃ c, s'.out = some c ∧ 500 ≤ c) (finalize pg s) := by
+    intro s hs
+    unfold Good
+    cases hx : (finalize pg s).exn with
+    | none => exact ⟨statusCode s, finalize_out pg s hx, hs⟩
+    | some e => exact finalize_exn pg s e hx
+  exact good_andThen (good_andThen (good_andThen g1 g2) g3) g4
+
+/-- **C01_error_path_is_5xx**: whenever `respond`'s protected block ends with an exception other than
+    `InternalRedirect` — i.e. whenever `handle_error` runs: an arbitrary exception from any stage, an
+    `HTTPError`/`HTTPRedirect` raised too late (`on_end_resource`, the re-run of `before_finalize`,
+    a failing `finalize`/`set_response`) — and no error-path callback raises a redirect, `Request.run`
+    returns with a status ≥ 500 (the error page, a custom error response, or `bare_error`). -/
+theorem C01_error_path_is_5xx (pg : Page) (m : Method) (nh bq : Bool) (hp : PlainErrorPath pg) (e : Exn)
+    (he : (protectedBlock pg m nh bq {}).exn = some e) (hne : ∀ t, e ≠ .internalRedirect t) :
+    (runRequest pg m nh bq).exn = none ∧ ∃ c, (runRequest pg m nh bq).st.out = some c ∧ 500 ≤ c := by
+  have hresp : respond pg m nh bq {} =
+      { handleError pg (protectedBlock pg m nh bq {}).st with
+        j := (protectedBlock pg m nh bq {}).j ++ (handleError pg (protectedBlock pg m nh bq {}).st).j } := by
+    unfold respond
+    cases e with
+    | internalRedirect t => exact absurd rfl (hne t)
+    | httpError c => simp only [he]
+    | httpRedirect c => simp only [he]
+    | exc => simp only [he]
+  have hT := handleErrorTry_spec pg (protectedBlock pg m nh bq {}).st hp
+  have hH : Good (fun s' => ∃ c, s'.out = some c ∧ 500 ≤ c) (handleError pg (protectedBlock pg m nh bq {}).st) := by
+    unfold handleError
+    generalize handleErrorTry pg (protectedBlock pg m nh bq {}).st = a at hT
+    unfold Good at hT
+    simp only []
+    cases hx : a.exn with
+    | none =>
+      simp only [hx] at hT
+      show Good _ a
+      unfold Good; rw [hx]; exact hT
+    | some e' =>
+      simp only [hx] at hT
+      cases e' with
+      | httpRedirect c => simp [isRedir] at hT
+      | internalRedirect t => simp [isRedir] at hT
+      | httpError c => show Good _ a; unfold Good; rw [hx]; rfl
+      | exc => show Good _ a; unfold Good; rw [hx]; rfl
+  unfold runRequest
+  rw [hresp]
+  simp only []
+  generalize handleError pg (protectedBlock pg m nh bq {}).st = b at hH
+  unfold Good at hH
+  cases hb : b.exn with
+  | none =>
+    simp only [hb] at hH ⊢
+    refine ⟨by split <;> rfl, ?_⟩
+    split <;> exact hH
+  | some e' =>
+    simp only [hb] at hH
+    cases e' with
+    | internalRedirect t => simp [isRedir] at hH
+    | httpRedirect c => simp [isRedir] at hH
+    | httpError c => simp only []; refine ⟨by first | trivial | rfl, 500, ?_, by omega⟩; split <;> rfl
+    | exc => simp only []; refine ⟨by first | trivial | rfl, 500, ?_, by omega⟩; split <;> rfl
+
+/-- **C01_unexpected_is_5xx**: if an arbitrary `Exception` leaves `_do_respond` (a hook, the
+    dispatcher, a namespace handler, the body processor, the handler, `finalize` choking on the body
+    …), no `on_end_resource` hook raises `InternalRedirect`, and no error-path callback raises a
+    redirect, the client is told a status ≥ 500. -/
+theorem C01_unexpected_is_5xx (pg : Page) (m : Method) (nh bq : Bool) (hp : PlainErrorPath pg)
+    (hexc : (doRespond pg m nh bq {}).exn = some .exc)
+    (hoer : ∀ h ∈ pg.hooks .onEndResource, ∀ t, h.out.raised ≠ some (.internalRedirect t)) :
+    (runRequest pg m nh bq).exn = none ∧ ∃ c, (runRequest pg m nh bq).st.out = some c ∧ 500 ≤ c := by
+  have hblock : ∃ e, (protectedBlock pg m nh bq {}).exn = some e ∧ ∀ t, e ≠ .internalRedirect t := by
+    unfold protectedBlock R.finallyDo
+    have hEB : exceptBranch pg (doRespond pg m nh bq {}) = doRespond pg m nh bq {} := by
+      unfold exceptBranch; simp only [hexc]
+    rw [hEB]
+    simp only [hexc]
+    cases hx : (runPoint pg .onEndResource (doRespond pg m nh bq {}).st).exn with
+    | none => exact ⟨.exc, rfl, fun t h => by cases h⟩
+    | some e' =>
+      refine ⟨e', rfl, fun t h => ?_⟩
+      subst h
+      obtain ⟨x, hx1, hx2⟩ := run_exn_mem _ _ (show (CpModel.Hooks.run (hooksAt pg (doRespond pg m nh bq {}).st .onEndResource)).2 = some (.internalRedirect t) from hx)
+      have hx' : x ∈ pg.hooks .onEndResource := by
+        unfold hooksAt at hx1
+        split at hx1
+        · exact hx1
+        · cases hx1
+      exact hoer x hx' t hx2
+  obtain ⟨e, he, hne⟩ := hblock
+  exact C01_error_path_is_5xx pg m nh bq hp e he hne
+
+/-- non-vacuity: a handler raising an Exception on a page with error hooks that behave -/
+example : PlainErrorPath { handler := { out := .exc }, hooks := fun p => if p = .beforeErrorResponse then [⟨1, 50, false, .exc⟩] else [] }
+    ∧ (doRespond { handler := { out := .exc }, hooks := fun p => if p = .beforeErrorResponse then [⟨1, 50, false, .exc⟩] else [] }
+        .get false false {}).exn = some .exc := by
+  refine ⟨⟨?_, ?_, ?_⟩, by decide⟩
+  · intro h hh; simp at hh; subst hh; decide
+  · intro h hh; simp at hh
+  · intro o ho; cases ho
+
+/-- …and an error hook that redirects does change the status (why the hypothesis is needed) -/
+example : (runRequest { handler := { out := .exc },
+                        hooks := fun p => if p = .beforeErrorResponse then [⟨1, 50, false, .httpRedirect 303⟩] else [] }
+            .get false false).st.out = some 303 := by decide
+
+/-! ### tracebacks off ⇒ no traceback / exception text — false in two ways (F1, F2), true otherwise -/
+
+def showsTb : BodyK → Bool
+  | .errorPage tb _ => tb
+  | .errorCb tb => tb
+  | .bare tb => tb
+  | _ => false
+
+/-- "In addition, the custom error page failed: <formatted exception>" -/
+def showsMsg : BodyK → Bool
+  | .errorPage _ m => m
+  | _ => false
+
+/-- the response carries traceback text, file paths or an exception message -/
+def leaks (res : Result) : Bool := showsTb res.body || showsMsg res.body || res.tail == some true
+
+/-- The statement at full strength: with `request.show_tracebacks` false (the attribute of the last
+    Request object) the response never contains traceback text or the exception message. -/
+def C01_no_leak_full : Prop := ∀ p : Plan, (call p).reqShowTb = false → leaks (call p) = false
+
+/-- F1 witness: `/p0` raises `InternalRedirect('/p0')` with `show_tracebacks` off everywhere. -/
+def witnessF1 : Plan :=
+  { pages := [{ showTb := false, handler := { out := .internalRedirect 0 } }], globalTb := false }
+
+/-- F2 witness: the handler fails, the `error_page` callable raises, `show_tracebacks` off. -/
+def witnessF2 : Plan :=
+  { pages := [{ showTb := false, handler := { out := .exc }, errorPage := .cbFail }], globalTb := false }
+
+/-- **F1**: the trapper-level 500 after the request was released shows the traceback. -/
+theorem C01_no_leak_full_false_F1 :
+    (call witnessF1).reqShowTb = false ∧ leaks (call witnessF1) = true ∧ (call witnessF1).body = .bare true := by
+  decide
+
+/-- **F2**: the failing `error_page` callable's exception text is pasted into the page. -/
+theorem C01_no_leak_full_false_F2 :
+    (call witnessF2).reqShowTb = false ∧ leaks (call witnessF2) = true ∧
+      (call witnessF2).body = .errorPage false true := by
+  decide
+
+theorem C01_no_leak_full_false : ¬ C01_no_leak_full := by
+  intro h
+  have := h witnessF1 C01_no_leak_full_false_F1.1
+  rw [C01_no_leak_full_false_F1.2.1] at this
+  cases this
+
+/-- Invariant of the response state of one Request object: a traceback is shown only if the request's
+    `show_tracebacks` is on; the "custom error page failed" text only with a failing callable. -/
+def Inv (pg : Page) (s : St) : Prop :=
+  (showsTb s.body = true → showTb pg s = true) ∧ (showsMsg s.body = true → errorPageOf pg s = .cbFail)
+
+theorem inv_andThen (pg : Page) {a : R} {f : St → R} (ha : Inv pg a.st) (hf : ∀ s, Inv pg s → Inv pg (f s).st) :
+    Inv pg (a.andThen f).st := by
+  cases he : a.exn with
+  | some e => rw [andThen_of_some he]; exact ha
+  | none => rw [andThen_of_none he]; exact hf _ ha
+
+theorem inv_runPoint (pg : Page) (p : Point) (s : St) (h : Inv pg s) : Inv pg (runPoint pg p s).st := h
+
+theorem inv_raiseIf (pg : Page) (o : Option Exn) (s : St) (h : Inv pg s) : Inv pg (raiseIf o s).st := h
+
+theorem showsTb_collapsed (b : BodyK) : showsTb b.collapsed = showsTb b := by
+  cases b with
+  | page sh => cases sh <;> rfl
+  | _ => rfl
+
+theorem showsMsg_collapsed (b : BodyK) : showsMsg b.collapsed = showsMsg b := by
+  cases b with
+  | page sh => cases sh <;> rfl
+  | _ => rfl
+
+theorem inv_finalize (pg : Page) (s : St) (h : Inv pg s) : Inv pg (finalize pg s).st := by
+  unfold finalize
+  simp only []
+  obtain ⟨h1, h2⟩ := h
+  repeat' split
+  all_goals first
+    | exact ⟨h1, h2⟩
+    | (refine ⟨fun hh => ?_, fun hh => ?_⟩
+       · have hh' : showsTb s.body.collapsed = true := hh
+         rw [showsTb_collapsed] at hh'; exact h1 hh'
+       · have hh' : showsMsg s.body.collapsed = true := hh
+         rw [showsMsg_collapsed] at hh'; exact h2 hh')
+    | (refine ⟨fun hh => ?_, fun hh => ?_⟩
+       · simp [showsTb] at hh
+       · simp [showsMsg] at hh)
+
+theorem inv_callHandler (pg : Page) (s : St) (h : Inv pg s) : Inv pg (callHandler pg s).st := by
+  unfold callHandler
+  obtain ⟨h1, h2⟩ := h
+  repeat' split
+  all_goals first
+    | exact ⟨h1, h2⟩
+    | (refine ⟨fun hh => ?_, fun hh => ?_⟩ <;> simp [showsTb, showsMsg] at hh)
+
+theorem inv_setResponseError (pg : Page) (c : Nat) (s : St) (h : Inv pg s) :
+    Inv pg (setResponseError pg c s).st := by
+  unfold setResponseError
+  simp only []
+  obtain ⟨h1, h2⟩ := h
+  split
+  · refine ⟨fun hh => ?_, fun hh => ?_⟩
+    · simpa [showsTb, showTb] using hh
+    · simp [showsMsg] at hh
+  · refine ⟨fun hh => ?_, fun hh => ?_⟩
+    · simpa [showsTb, showTb] using hh
+    · simp [showsMsg] at hh
+  · rename_i hcb
+    refine ⟨fun hh => ?_, fun _ => ?_⟩
+    · simpa [showsTb, showTb] using hh
+    · simpa [errorPageOf] using hcb
+  · exact ⟨h1, h2⟩
+
+theorem inv_setResponseRedirect (pg : Page) (c : Nat) (s : St) (h : Inv pg s) :
+    Inv pg (setResponseRedirect c s).st := by
+  unfold setResponseRedirect
+  simp only []
+  obtain ⟨h1, h2⟩ := h
+  split
+  · refine ⟨fun hh => ?_, fun hh => ?_⟩ <;> simp [showsTb, showsMsg] at hh
+  · exact ⟨h1, h2⟩
+
+theorem inv_callErrorResponse (pg : Page) (s : St) (h : Inv pg s) : Inv pg (callErrorResponse pg s).st := by
+  unfold callErrorResponse
+  split
+  · exact inv_setResponseError pg 500 s h
+  · split
+    · exact h
+    · refine ⟨fun hh => ?_, fun hh => ?_⟩ <;> simp [showsTb, showsMsg] at hh
+
+theorem inv_doRespond (pg : Page) (m : Method) (nh bq : Bool) : Inv pg (doRespond pg m nh bq {}).st := by
+  unfold doRespond
+  -- up to and including the namespace step the body is still empty
+  have h0 : Inv pg (((raiseIf (if nh then some (.httpError 400) else none) ({} : St)).andThen
+      (raiseIf pg.dispatch.raised)).andThen (fun s => raiseIf pg.ns.raised { s with attached := true })).st := by
+    have hbody : ∀ a : R, a.st.body = .empty → Inv pg a.st := by
+      intro a hb; refine ⟨fun hh => ?_, fun hh => ?_⟩ <;> simp [hb, showsTb, showsMsg] at hh
+    apply hbody
+    cases nh <;> cases h1 : pg.dispatch.raised <;> cases h2 : pg.ns.raised <;>
+      simp [R.andThen, raiseIf, h1, h2]
+  exact inv_andThen pg (inv_andThen pg (inv_andThen pg (inv_andThen pg (inv_andThen pg (inv_andThen pg
+    (inv_andThen pg (inv_andThen pg h0 (inv_runPoint pg _)) (inv_raiseIf pg _)) (inv_runPoint pg _))
+    (inv_raiseIf pg _)) (inv_runPoint pg _)) (inv_callHandler pg)) (inv_runPoint pg _)) (inv_finalize pg)
+
+theorem inv_exceptBranch (pg : Page) (a : R) (h : Inv pg a.st) : Inv pg (exceptBranch pg a).st := by
+  unfold exceptBranch
+  split
+  · exact inv_andThen pg (inv_andThen pg (inv_setResponseError pg _ _ h) (inv_runPoint pg _)) (inv_finalize pg)
+  · exact inv_andThen pg (inv_andThen pg (inv_setResponseRedirect pg _ _ h) (inv_runPoint pg _)) (inv_finalize pg)
+  · exact h
+
+theorem inv_handleError (pg : Page) (s : St) (h : Inv pg s) : Inv pg (handleError pg s).st := by
+  unfold handleError
+  have hT : Inv pg (handleErrorTry pg s).st := by
+    unfold handleErrorTry
+    exact inv_andThen pg (inv_andThen pg (inv_andThen pg (inv_runPoint pg _ s h) (inv_callErrorResponse pg))
+      (inv_runPoint pg _)) (inv_finalize pg)
+  generalize handleErrorTry pg s = a at hT
+  simp only []
+  split
+  · exact inv_andThen pg (inv_setResponseRedirect pg _ _ hT) (inv_finalize pg)
+  · exact hT
+
+theorem inv_runRequest (pg : Page) (m : Method) (nh bq : Bool) : Inv pg (runRequest pg m nh bq).st := by
+  have hP : Inv pg (protectedBlock pg m nh bq {}).st := by
+    unfold protectedBlock R.finallyDo
+    exact inv_exceptBranch pg _ (inv_doRespond pg m nh bq)
+  have hR : Inv pg (respond pg m nh bq {}).st := by
+    unfold respond
+    generalize protectedBlock pg m nh bq {} = a at hP
+    simp only []
+    split
+    · exact hP
+    · exact hP
+    · exact inv_handleError pg _ hP
+  unfold runRequest
+  generalize respond pg m nh bq {} = a at hR
+  have hempty : ∀ s : St, Inv pg { s with body := .empty } := by
+    intro s; refine ⟨fun hh => ?_, fun hh => ?_⟩ <;> simp [showsTb, showsMsg] at hh
+  simp only []
+  split
+  · exact hR
+  · split
+    · exact hempty _
+    · refine ⟨fun hh => ?_, fun hh => ?_⟩
+      · simpa [showsTb, showTb] using hh
+      · simp [showsMsg] at hh
+  · split
+    · exact hempty _
+    · exact hR
+
+/-- what the redirector hands to the server: the served Request object satisfies the invariant and its
+    page is one of the plan's pages (or the no-such-path page) -/
+def ServedOk (pages : List Page) (g : Bool) : Redir → Prop
+  | .served st pg _ => Inv pg st ∧ (pg ∈ pages ∨ pg = notFoundPage g)
+  | _ => True
+
+theorem getD_mem (pages : List Page) (cur : Nat) (d : Page) : pages.getD cur d ∈ pages ∨ pages.getD cur d = d := by
+  unfold List.getD
+  cases h : pages[cur]? with
+  | none => right; rfl
+  | some x => left; exact List.mem_of_getElem? h
+
+theorem redirector_served (pages : List Page) (nh g : Bool) (fuel : Nat) :
+    ∀ (visited : List (Nat × Bool)) (cur : Nat) (m : Method) (bq : Bool) (r : Nat),
+    ServedOk pages g (redirector pages nh g fuel visited cur m bq r).2 := by
+  induction fuel with
+  | zero => intro _ _ _ _ _; exact trivial
+  | succ fuel ih =>
+    intro visited cur m bq r
+    rw [redirector_succ]
+    have hI := inv_runRequest (pages.getD cur (notFoundPage g)) m nh bq
+    have hM := getD_mem pages cur (notFoundPage g)
+    have hserved : ∀ st, (appResponse (pages.getD cur (notFoundPage g)) m nh bq r).2 = .served st →
+        Inv (pages.getD cur (notFoundPage g)) st := by
+      intro st
+      unfold appResponse
+      simp only []
+      split
+      · intro h; cases h
+      · split
+        · intro h; cases h
+        · intro h; cases h; exact hI
+    generalize appResponse (pages.getD cur (notFoundPage g)) m nh bq r = ar at hserved ⊢
+    obtain ⟨j, ini⟩ := ar
+    cases ini with
+    | served st => exact ⟨hserved st rfl, hM⟩
+    | raised e tb =>
+      cases e with
+      | internalRedirect t =>
+        simp only []
+        split
+        · exact trivial
+        · exact ih _ _ _ _ _
+      | httpError c => exact trivial
+      | httpRedirect c => exact trivial
+      | exc => exact trivial
+
+/-- **C01_no_leak_partial**: with `show_tracebacks` off on the last Request object, the response
+    carries no traceback text and no exception message — provided the answer was not produced by the
+    trapper after the request had been released (F1) and no page uses an `error_page` callable that
+    raises (F2).  Covers the error pages of `HTTPError.set_response`, `bare_error` in `Request.run`,
+    the trapper's mid-stream 500 (the request is still current there), custom error responses, HEAD. -/
+theorem C01_no_leak_partial (p : Plan) (hoff : (call p).reqShowTb = false)
+    (hF1 : (call p).trappedAtInit = false) (hF2 : ∀ pg ∈ p.pages, pg.errorPage ≠ .cbFail) :
+    leaks (call p) = false := by
+  have hS := redirector_served p.pages p.noHost p.globalTb (p.pages.length + 2) [] p.start p.meth p.badQuery 0
+  have hfuel := fuel_sufficient p
+  unfold call at hoff hF1 hfuel ⊢
+  generalize redirector p.pages p.noHost p.globalTb (p.pages.length + 2) [] p.start p.meth p.badQuery 0 = res at hS hoff hF1 hfuel ⊢
+  obtain ⟨j, red⟩ := res
+  cases red with
+  | outOfFuel => simp at hfuel
+  | raised e tb => simp [trapCatches] at hF1
+  | served st pg r =>
+    obtain ⟨⟨h1, h2⟩, hmem⟩ := hS
+    have hcb : errorPageOf pg st ≠ .cbFail := by
+      unfold errorPageOf
+      split
+      · rcases hmem with hm | hm
+        · exact hF2 pg hm
+        · rw [hm]; simp [notFoundPage]
+      · simp
+    simp only at hoff ⊢
+    have htb : showTb pg st = false := by
+      split at hoff <;> exact hoff
+    have hb1 : showsTb st.body = false := by
+      cases hh : showsTb st.body with
+      | false => rfl
+      | true => rw [h1 hh] at htb; cases htb
+    have hb2 : showsMsg st.body = false := by
+      cases hh : showsMsg st.body with
+      | false => rfl
+      | true => exact absurd (h2 hh) hcb
+    split <;> simp [leaks, hb1, hb2, htb]
+
+/-- non-vacuity of `C01_no_leak_partial`: a failing handler with tracebacks off, answered by the
+    ordinary error page -/
+example : (call { pages := [{ showTb := false, handler := { out := .exc } }] }).reqShowTb = false ∧
+    (call { pages := [{ showTb := false, handler := { out := .exc } }] }).trappedAtInit = false ∧
+    (call { pages := [{ showTb := false, handler := { out := .exc } }] }).body = .errorPage false false := by
+  decide
+
 end CpProofs.C01
